@@ -305,9 +305,9 @@ theorem gp_shape_constraint_drives_penalty_to_zero [DecidableEq C] (env : Env C 
 /-! ## non-vacuity -/
 
 /-- two texts `x0 <= 1 ; x0 = x1` and `x1 >= 3` as `generate_conditions` returns them - `(((c0,), (c1,)), ((c2,), ()))` - with
-`ptype=None`: three pairs, zero at `[1, 1]`?? no - `x1 >= 3` fails there (value `2*100*2^2 = 800`); zero at `[3, 3]`?? no -
-`x0 <= 1` fails (800); a feasible point does not exist for this system, `[1, 1]` and `[0, 3]` show two different lines priced;
-`join=or_` over the two texts is `0` at `[1, 1]` (first text holds) and at `[0, 3]` (second text holds), `join=and_` is not -/
+`ptype=None`: three `(type, condition)` pairs of the conditions' own kinds; at `[1, 1]` only `x1 >= 3` fails (`2*100*2^2 = 800`),
+at `[0, 3]` only `x0 = x1` fails (`100*3^2 = 900`); `join=or_` over the two texts is `0` at both points (the first resp. the
+second text holds there), `join=and_` is not -/
 example :
     let env : Env Nat ℚ := { ι := fun n => (n : ℚ), tol := 0, rel := 0 }
     let c0 := condEmit (⟨.var 0, .le, .num 1⟩ : Rel2 Nat)
